@@ -19,7 +19,8 @@ RULE = (
     "Non-trivial = grid_n >= 3 with a solution of >= 2 cells; distinct by canonical case digest."
 )
 ASSUMPTIONS = [
-    "mazes are connected (spanning tree + extra edges), so every row and column index occurs in some connection, as the quantifier requires",
+    "the token stream carries no grid size; it is recovered from the largest index occurring in a connection, so mazes are generated (connected ones, and sparse ones "
+    "whose last row or last column - not both - may be walled off) such that index n-1 occurs in some connection; other mazes are discarded and counted",
     "adjacency-list entries may come in any order and either orientation: streams are compared through the decoder, never token by token inside that region",
 ]
 
@@ -57,6 +58,9 @@ def check(case: dict):
 
     g, sol, kind, mode = case["g"], case["sol"], case["kind"], case["mode"]
     n = g["r"]
+    # the token stream carries no grid size: it is recovered from the largest index that occurs in a connection
+    if max((max(u[0], u[1], v[0], v[1]) for u, v in M.edges_of(g)), default=-1) != n - 1:
+        raise Discard()
     mgs = {"none": None, "n": n, "20": max(20, n)}[case["mgs"]]
     flavour = case["flavour"]
     np.random.seed(case["np_seed"] % (2**32))
@@ -83,7 +87,7 @@ def check(case: dict):
     ea = sorted((sorted([a, b]), f) for a, b, f in M.parse_adjacency(_params(mode), ra["adj"]))
     eb = sorted((sorted([a, b]), f) for a, b, f in M.parse_adjacency(_params(mode), rb["adj"]))
     require(ea == eb and len(ra["adj"]) == len(rb["adj"]), f"{sig}:legacy-vs-modular:adjacency", "the two streams list different adjacency entries")
-    labels = [mode, kind, flavour, f"input:{case['input']}", f"mgs:{case['mgs']}"]
+    labels = [mode, kind, flavour, f"input:{case['input']}", f"mgs:{case['mgs']}"] + ([f"walled:{case['wall']}"] if case.get("wall") else [])
     if n >= 11:
         labels.append("multi-digit")
     return {"nt": n >= 3 and len(sol) >= 2, "labels": labels}
@@ -132,6 +136,30 @@ def _case(draw, hi):
 
 
 @st.composite
+def _sparse_case(draw, hi):
+    """mazes that are not connected: the last column or the last row (not both) may be walled off entirely, cells may be isolated"""
+    n = draw(st.sampled_from(list(range(2, min(hi, 9) + 1)) + [11]))
+    g = draw(G.graphs(n, n))
+    wall = draw(st.sampled_from(["none", "last-col", "last-row"]))
+    bits = list(g["cl"])
+    for u, v in M.edges_of(g):
+        if (wall == "last-col" and n - 1 in (u[1], v[1])) or (wall == "last-row" and n - 1 in (u[0], v[0])):
+            bits[M.edge_bit(n, n, u, v)] = "0"
+    g = {"r": n, "c": n, "cl": "".join(bits)}
+    a = M.adj(g)
+    s = tuple(draw(G.cell_in(n, n)))
+    comp = sorted(M.bfs(a, s).items(), key=lambda kv: (-kv[1], kv[0]))
+    e = draw(st.sampled_from([u for u, _ in comp[: max(1, len(comp) // 2)]]))
+    sol = [list(q) for q in draw(st.sampled_from(M.all_shortest_paths(a, s, e, cap=3)))]
+    return {
+        "g": g, "sol": sol, "kind": draw(st.sampled_from(["lattice", "targeted", "solved", "solved"])),
+        "mode": draw(st.sampled_from(MODES)), "mgs": draw(st.sampled_from(["none", "n", "20"])),
+        "flavour": draw(st.sampled_from(["legacy", "mode", "modular"])), "input": draw(st.sampled_from(["list", "string"])),
+        "np_seed": draw(st.integers(0, 2**32 - 1)), "wall": wall,
+    }
+
+
+@st.composite
 def _dataset(draw, hi):
     n = draw(st.sampled_from([2, 3, 4, 5, 11]))
     items = draw(st.lists(G.solved_case(lo=n, hi=n, square=True, connected=True), min_size=1, max_size=5))
@@ -145,5 +173,6 @@ def subs(tier: str):
     q = tier == "quick"
     return [
         Sub("mazes", check, "hypothesis", strategy=lambda: _case(20), examples=60 if q else 1200),
+        Sub("sparse-mazes", check, "hypothesis", strategy=lambda: _sparse_case(20), examples=40 if q else 600),
         Sub("datasets", check_dataset, "hypothesis", strategy=lambda: _dataset(20), examples=20 if q else 300),
     ]
